@@ -1,9 +1,251 @@
-import Netpol.Model.ConnSet
+import Netpol.Proofs.ConnSet
+
+/-! C11: the connection-set algebra (`ConnSet`, model of `connectionset.go` / `portset.go`)
+against its numeric denotation `ConnSet.den`. Only the property statements are here, each proved
+by a lemma of `Netpol.Proofs.ConnSet`, followed by non-vacuity examples on concrete sets.
+
+Vocabulary (defined in `Netpol.Proofs.ConnSet`): `inRange p` is `1 ≤ p ≤ 65535`;
+`PortSet.WF` = canonical interval list inside the port range; `ConnSet.den c pr p` = port `p` of
+protocol `pr` is allowed numerically; `ConnSet.names c pr` = named ports held for `pr`;
+`ConnSet.WF` = the AllowAll form has no entries, entries are well-formed and not empty;
+`ConnSet.Canonical` = `WF` and the full set is not held as three full entries. -/
 namespace Netpol.Properties.C11
 open Netpol
 
-/-- placeholder until the interval-layer theorems are in -/
-theorem mk_all_contains (pr : Proto) (p : Int) : (ConnSet.mk' true).contains pr p = true := by
-  simp [ConnSet.mk', ConnSet.contains]
+variable {c d : ConnSet} {p o ps : PortSet} {pr : Proto}
+
+/-! ### concrete sets for the examples -/
+
+/-- `TCP 80-90` -/
+def exA : ConnSet :=
+  (ConnSet.mk' false).addConnection .TCP ((PortSet.mk' false).addPortRange 80 90)
+
+/-- `TCP 85-100, UDP 53` -/
+def exB : ConnSet :=
+  ((ConnSet.mk' false).addConnection .TCP ((PortSet.mk' false).addPortRange 85 100)).addConnection
+    .UDP ((PortSet.mk' false).addPort (.num 53))
+
+/-- `TCP http` (a named port only) -/
+def exN : ConnSet :=
+  (ConnSet.mk' false).addConnection .TCP ((PortSet.mk' false).addPort (.name "http"))
+
+/-- all three protocols with the full range, added one by one -/
+def exFull : ConnSet :=
+  (((ConnSet.mk' false).addConnection .TCP (PortSet.mk' true)).addConnection
+    .UDP (PortSet.mk' true)).addConnection .SCTP ((PortSet.mk' false).addPortRange 1 65535)
+
+example : exA = ⟨false, some ⟨[⟨80, 90⟩], [], []⟩, none, none⟩ := by decide
+example : exB = ⟨false, some ⟨[⟨85, 100⟩], [], []⟩, some ⟨[⟨53, 53⟩], [], []⟩, none⟩ := by decide
+
+/-! ### A. well-formedness is preserved -/
+
+/-! port-set level -/
+
+theorem portSet_wf_mk (b : Bool) : (PortSet.mk' b).WF := PortSet.wf_mk' b
+
+theorem portSet_wf_union (hp : p.WF) (ho : o.WF) : (p.union o).WF := PortSet.wf_union hp ho
+
+theorem portSet_wf_inter (hp : p.WF) : (p.inter o).WF := PortSet.wf_inter o hp
+
+theorem portSet_wf_subtract (hp : p.WF) : (p.subtract o).WF := PortSet.wf_subtract o hp
+
+theorem portSet_wf_addPort_num (hp : p.WF) {n : Int} (hn : inRange n) :
+    (p.addPort (.num n)).WF := PortSet.wf_addPort_num hp hn
+
+theorem portSet_wf_addPort_name (hp : p.WF) (s : String) : (p.addPort (.name s)).WF :=
+  PortSet.wf_addPort_name hp s
+
+theorem portSet_wf_addPortRange (hp : p.WF) {lo hi : Int} (h1 : 1 ≤ lo) (h2 : hi ≤ 65535) :
+    (p.addPortRange lo hi).WF := PortSet.wf_addPortRange hp h1 h2
+
+theorem portSet_wf_copy (hp : p.WF) : p.copy.WF := PortSet.wf_copy hp
+
+example : ((PortSet.mk' false).addPortRange 80 90).WF := by decide
+/-- the range hypotheses are needed: an out-of-range port breaks `WF` -/
+example : ¬ ((PortSet.mk' false).addPort (.num 70000)).WF := by decide
+
+/-! connection-set level -/
+
+theorem wf_mk (b : Bool) : (ConnSet.mk' b).WF := ConnSet.wf_mk b
+
+/-- the hypothesis `ha` is needed: `AddConnection` on the AllowAll form stores the entry next to
+the AllowAll flag (as the Go code does), which is outside `WF`; see the example below -/
+theorem wf_addConnection (hc : c.WF) (hp : ps.WF) (ha : c.allowAll = true → ps.isEmpty = true) :
+    (c.addConnection pr ps).WF := ConnSet.wf_addConnection pr hc hp ha
+
+theorem wf_union (hc : c.WF) (hd : d.WF) : (c.union d).WF := ConnSet.wf_union hc hd
+
+theorem wf_inter (hc : c.WF) (hd : d.WF) : (c.inter d).WF := ConnSet.wf_inter hc hd
+
+theorem wf_subtract (hc : c.WF) (hd : d.WF) : (c.subtract d).WF := ConnSet.wf_subtract hc hd
+
+theorem wf_copy (hc : c.WF) : c.copy.WF := ConnSet.wf_copy hc
+
+example : exA.WF ∧ exB.WF ∧ exN.WF ∧ exFull.WF := by decide
+example : (exA.union exB).WF ∧ (exA.inter exB).WF ∧ (exA.subtract exB).WF := by decide
+example : ((ConnSet.mk' true).subtract exA).WF := by decide
+example : ¬ ((ConnSet.mk' true).addConnection .TCP ((PortSet.mk' false).addPortRange 80 90)).WF := by
+  decide
+
+/-! ### B. denotation of the operations -/
+
+theorem den_mk_all (pr : Proto) (x : Int) : (ConnSet.mk' true).den pr x ↔ inRange x :=
+  ConnSet.den_mk_all pr x
+
+theorem den_mk_none (pr : Proto) (x : Int) : ¬ (ConnSet.mk' false).den pr x :=
+  ConnSet.den_mk_none pr x
+
+/-- no well-formedness hypothesis is needed -/
+theorem den_addConnection (c : ConnSet) (pr : Proto) (ps : PortSet) (pr' : Proto) (x : Int) :
+    (c.addConnection pr ps).den pr' x ↔ c.den pr' x ∨ (pr' = pr ∧ CSet.memL ps.ports x) :=
+  ConnSet.den_addConnection c pr ps pr' x
+
+theorem den_union (hc : c.WF) (hd : d.WF) (pr : Proto) (x : Int) :
+    (c.union d).den pr x ↔ c.den pr x ∨ d.den pr x := ConnSet.den_union hc hd pr x
+
+theorem den_inter (hc : c.WF) (hd : d.WF) (pr : Proto) (x : Int) :
+    (c.inter d).den pr x ↔ c.den pr x ∧ d.den pr x := ConnSet.den_inter hc hd pr x
+
+theorem den_subtract (hc : c.WF) (hd : d.WF) (pr : Proto) (x : Int) :
+    (c.subtract d).den pr x ↔ c.den pr x ∧ ¬ d.den pr x := ConnSet.den_subtract hc hd pr x
+
+theorem den_copy (c : ConnSet) : c.copy.den = c.den := ConnSet.den_copy c
+
+example : exA.den .TCP 80 ∧ exA.den .TCP 90 ∧ ¬ exA.den .TCP 91 ∧ ¬ exA.den .UDP 80 := by decide
+example : (exA.union exB).den .TCP 95 ∧ ¬ (exA.union exB).den .TCP 101 ∧
+    (exA.union exB).den .UDP 53 := by decide
+example : (exA.inter exB).den .TCP 87 ∧ ¬ (exA.inter exB).den .TCP 80 ∧
+    ¬ (exA.inter exB).den .UDP 53 := by decide
+example : (exA.subtract exB).den .TCP 84 ∧ ¬ (exA.subtract exB).den .TCP 85 := by decide
+/-- `Subtract` from the AllowAll form goes through three full entries -/
+example : ((ConnSet.mk' true).subtract exA).den .TCP 79 ∧
+    ¬ ((ConnSet.mk' true).subtract exA).den .TCP 80 ∧
+    ((ConnSet.mk' true).subtract exA).den .SCTP 65535 ∧
+    ¬ ((ConnSet.mk' true).subtract exA).den .SCTP 65536 := by decide
+
+/-! ### C. predicates -/
+
+theorem contains_iff (hc : c.WF) {x : Int} (hx : inRange x) :
+    c.contains pr x = true ↔ c.den pr x := ConnSet.contains_iff hc pr hx
+
+/-- All Connections contains every port of every protocol (kept from the earlier placeholder;
+no range hypothesis: the Go `Contains` does not check the range in the AllowAll form) -/
+theorem mk_all_contains (pr : Proto) (x : Int) : (ConnSet.mk' true).contains pr x = true := rfl
+
+example : exA.contains .TCP 80 = true ∧ exA.contains .TCP 79 = false ∧
+    exB.contains .UDP 53 = true := by decide
+
+theorem isEmpty_iff (hc : c.WF) :
+    c.isEmpty = true ↔ (∀ pr x, ¬ c.den pr x) ∧ ∀ pr, c.names pr = [] := ConnSet.isEmpty_iff hc
+
+example : (exA.subtract exA).isEmpty = true ∧ exA.isEmpty = false ∧ exN.isEmpty = false := by
+  decide
+
+/-- `ContainedIn` implies inclusion of the denotations (named ports or not) -/
+theorem containedIn_sound (hc : c.WF) (hd : d.WF) (h : c.containedIn d = true) :
+    ∀ pr x, c.den pr x → d.den pr x := ConnSet.containedIn_sound hc hd h
+
+/-- the general converse: when the receiver is the AllowAll form the argument has to be known to
+recognise its own fullness (`hA`); `containedIn_iff` discharges that from `Canonical` -/
+theorem containedIn_complete (hc : c.WF) (hd : d.WF) (hn : ∀ pr, c.names pr = [])
+    (hA : c.allowAll = true → (∀ pr x, inRange x → d.den pr x) → d.allowAll = true)
+    (h : ∀ pr x, c.den pr x → d.den pr x) : c.containedIn d = true :=
+  ConnSet.containedIn_complete hc hd hn hA h
+
+/-- receiver not in the AllowAll form: plain well-formedness of the argument is enough -/
+theorem containedIn_iff_of_not_allowAll (hc : c.WF) (hd : d.WF) (hn : ∀ pr, c.names pr = [])
+    (ha : c.allowAll = false) :
+    c.containedIn d = true ↔ ∀ pr x, c.den pr x → d.den pr x :=
+  ⟨containedIn_sound hc hd,
+   containedIn_complete hc hd hn (fun h => by rw [ha] at h; exact absurd h (by decide))⟩
+
+/-- `d` has to be canonical and free of named / excluded ports: otherwise `d` can cover the whole
+range without being recognised as All Connections, and `AllowAll.ContainedIn(d)` is false -/
+theorem containedIn_iff (hc : c.WF) (hd : d.Canonical) (hn : ∀ pr, c.names pr = [])
+    (hdn : ∀ pr, d.names pr = []) (hde : ∀ pr ps, d.get pr = some ps → ps.excluded = []) :
+    c.containedIn d = true ↔ ∀ pr x, c.den pr x → d.den pr x :=
+  ⟨containedIn_sound hc hd.1,
+   containedIn_complete hc hd.1 hn (fun _ => (ConnSet.allowAll_iff_full hd hdn hde).mpr)⟩
+
+example : (exA.inter exB).containedIn exA = true ∧ exA.containedIn exB = false ∧
+    exA.containedIn (ConnSet.mk' true) = true ∧ (ConnSet.mk' true).containedIn exA = false := by
+  decide
+
+/-- why `Canonical d` is needed: three full entries without the flag denote everything, yet
+All Connections is not `ContainedIn` them -/
+example : (ConnSet.mk' true).containedIn ConnSet.fullEntries = false ∧
+    ∀ pr x, (ConnSet.mk' true).den pr x → ConnSet.fullEntries.den pr x :=
+  ⟨by decide, fun pr x h => (ConnSet.den_fullEntries pr x).mpr ((ConnSet.den_mk_all pr x).mp h)⟩
+
+/-- a set holding a named port is not contained in a set that lacks both that name and the full
+port range -/
+theorem containedIn_named (hc : c.WF) {n : String} (hn : n ∈ c.names pr) (hnd : n ∉ d.names pr)
+    (hb : d.allowAll = false) (hfull : ∀ ps, d.get pr = some ps → ps.ports ≠ [⟨1, 65535⟩]) :
+    c.containedIn d = false := ConnSet.containedIn_named hc hn hnd hb hfull
+
+example : "http" ∈ exN.names .TCP ∧ "http" ∉ exA.names .TCP ∧ exN.containedIn exA = false := by
+  decide
+
+theorem canonical_mk (b : Bool) : (ConnSet.mk' b).Canonical := ConnSet.canonical_mk b
+
+theorem canonical_addConnection (hc : c.WF) (hp : ps.WF)
+    (ha : c.allowAll = true → ps.isEmpty = true) : (c.addConnection pr ps).Canonical :=
+  ConnSet.canonical_addConnection pr hc hp ha
+
+/-- `Union` returns its receiver unchanged when the argument is empty, hence `Canonical c` -/
+theorem canonical_union (hc : c.Canonical) (hd : d.WF) : (c.union d).Canonical :=
+  ConnSet.canonical_union hc.1 hd (fun _ => hc.2)
+
+/-- with a non-empty argument plain well-formedness of the receiver is enough -/
+theorem canonical_union_of_nonempty (hc : c.WF) (hd : d.WF) (hne : d.isEmpty = false) :
+    (c.union d).Canonical :=
+  ConnSet.canonical_union hc hd (fun h => by rw [hne] at h; exact absurd h (by decide))
+
+/-- `Canonical` is an invariant of the remaining operations too (so the `Canonical` hypotheses
+above are met by every set built from `mk'` with the operations) -/
+theorem canonical_inter (hc : c.Canonical) (hd : d.Canonical) : (c.inter d).Canonical :=
+  ConnSet.canonical_inter hc hd
+
+theorem canonical_subtract (hc : c.Canonical) (hd : d.WF) : (c.subtract d).Canonical :=
+  ConnSet.canonical_subtract hc hd
+
+/-- the full set is recognised as All Connections -/
+theorem allowAll_iff_full (hc : c.Canonical) (hn : ∀ pr, c.names pr = [])
+    (he : ∀ pr ps, c.get pr = some ps → ps.excluded = []) :
+    c.allowAll = true ↔ ∀ pr x, inRange x → c.den pr x := ConnSet.allowAll_iff_full hc hn he
+
+example : exFull = ConnSet.mk' true := by decide
+example : exA.Canonical ∧ (exA.union exB).Canonical ∧ exFull.Canonical ∧
+    ((ConnSet.mk' true).subtract exA).Canonical ∧ (exA.inter exB).Canonical := by decide
+/-- three full entries without the flag are well-formed but not canonical -/
+example : ConnSet.fullEntries.WF ∧ ¬ ConnSet.fullEntries.Canonical := by decide
+example : (ConnSet.fullEntries.union (ConnSet.mk' false)) = ConnSet.fullEntries := by decide
+
+theorem equal_iff_eq (c d : ConnSet) : c.equal d = true ↔ c = d := ConnSet.equal_iff_eq c d
+
+/-- equal sets compare equal: canonical sets without named / excluded ports that denote the same
+ports are the same value (so `Equal` returns true on them by `equal_iff_eq`) -/
+theorem eq_of_den (hc : c.Canonical) (hd : d.Canonical)
+    (hcn : ∀ pr, c.names pr = []) (hce : ∀ pr ps, c.get pr = some ps → ps.excluded = [])
+    (hdn : ∀ pr, d.names pr = []) (hde : ∀ pr ps, d.get pr = some ps → ps.excluded = [])
+    (h : ∀ pr x, c.den pr x ↔ d.den pr x) : c = d :=
+  ConnSet.eq_of_den hc hd hcn hce hdn hde h
+
+theorem equal_of_den (hc : c.Canonical) (hd : d.Canonical)
+    (hcn : ∀ pr, c.names pr = []) (hce : ∀ pr ps, c.get pr = some ps → ps.excluded = [])
+    (hdn : ∀ pr, d.names pr = []) (hde : ∀ pr ps, d.get pr = some ps → ps.excluded = [])
+    (h : ∀ pr x, c.den pr x ↔ d.den pr x) : c.equal d = true :=
+  (equal_iff_eq c d).mpr (eq_of_den hc hd hcn hce hdn hde h)
+
+example : (exA.union exB).equal (exB.union exA) = true ∧ exA.equal exB = false := by decide
+/-- the side conditions on named / excluded ports hold for a concrete set -/
+example : (∀ pr, exA.names pr = []) ∧ ∀ pr ps, exA.get pr = some ps → ps.excluded = [] := by
+  have e : exA = ⟨false, some ⟨[⟨80, 90⟩], [], []⟩, none, none⟩ := by decide
+  rw [e]
+  constructor
+  · intro pr; cases pr <;> rfl
+  · intro pr ps h
+    cases pr <;> simp [ConnSet.get] at h
+    subst h; rfl
 
 end Netpol.Properties.C11
